@@ -231,6 +231,11 @@ func (v *ScriptView) writeModifySQLForAColumn(attrTypeOld, attrTypeNew *sysl.Typ
 			}
 		}
 	}
+	if typeRefNew == nil && isAutoIncrementNew {
+		// an autoincrement column is a bigserial: columns that reference it are bigint, exactly as
+		// the create script types them
+		datatype = bigIntConst
+	}
 	visitedAttributes[tableName+"."+attrName] = datatype
 	return primaryKeyChanged, isPrimaryKeyOld
 }
